@@ -113,6 +113,9 @@ class World:
         return None
 
 
+ENTRY_OFFSETS = {'a': 1, 'b': 2, 'v': 3, 'o': 2, 'V': 1}
+
+
 def mk_vector(world, name, kind, d, prefix, offset_choice=True):
     """abstract SU_vector in one of the invariant-satisfying states"""
     o = Obj(SUV, None, name)
@@ -124,7 +127,8 @@ def mk_vector(world, name, kind, d, prefix, offset_choice=True):
         o.field('isinit').value = 0
         o.field('isinit_d').value = 0
     elif kind == 'owned':
-        off = 1 if offset_choice else 0
+        # distinct hidden offsets per participant: an offset copied from the wrong operand must be visible
+        off = ENTRY_OFFSETS.get(name, 1) if offset_choice else 0
         b = world.new_block(d * d + 3, 'heap', 'entry state of ' + name, addr=(32 - 8 * off - (8 if d % 2 else 0)) % 32, entry=True)
         b.region.make = lambda k, p=prefix, o_=off: Poly.var('%s%d' % (p, k - o_)) if 0 <= k - o_ < d * d else UNDEF
         o.field('dim').value = d
